@@ -16,7 +16,20 @@ def sh(cmd, **kw):
     return subprocess.run(cmd, shell=True, capture_output=True, text=True, **kw)
 
 
-meta = {"property": P, "k": int(k), "evaluated_at_repo_head": sh("git -C /repo rev-parse --short HEAD").stdout.strip()}
+def section(text, *keys):
+    import re
+    for m in re.finditer(r"^#+\s*(.+?)\s*$\n(.*?)(?=^#+\s|\Z)", text, re.S | re.M):
+        if any(kk in m.group(1).lower() for kk in keys):
+            return " ".join(m.group(2).split())[:600]
+    return ""
+
+
+_notes = open(f"{src}/notes.md").read() if os.path.exists(f"{src}/notes.md") else ""
+meta = {"property": P, "k": int(k), "breaks_property": P,
+        "title": (_notes.splitlines() or [""])[0].lstrip("# ").strip(),
+        "change": section(_notes, "change", "what the change"),
+        "needs": section(_notes, "manifest", "needs"),
+        "what_was_run": "scratch worktree of /repo HEAD; git apply patch.diff; repository test suite; demo.py with and without the change (LIQUID_REPO); ./check <id> quick with LIQUID_REPO pointing at the changed tree", "evaluated_at_repo_head": sh("git -C /repo rev-parse --short HEAD").stdout.strip()}
 os.makedirs(dst, exist_ok=True)
 for f in ("patch.diff", "demo.py", "notes.md"):
     if os.path.exists(f"{src}/{f}"):
